@@ -2,8 +2,11 @@ import abc
 import copy
 from typing import Dict, List, Optional, Sequence, TypeVar
 
+import numpy as np
+
 from classy_blocks.base import transforms as tr
 from classy_blocks.types import NPPointType, PointType, VectorType
+from classy_blocks.util.constants import DTYPE
 
 ElementBaseT = TypeVar("ElementBaseT", bound="ElementBase")
 
@@ -15,6 +18,9 @@ class ElementBase(abc.ABC):
     def translate(self: ElementBaseT, displacement: VectorType) -> ElementBaseT:
         """Move by displacement vector; returns the same instance
         to enable chaining of transformations."""
+        # (a copy: the displacement may be one of this entity's own arrays, which moves along)
+        displacement = np.array(displacement, dtype=DTYPE)
+
         for component in self.parts:
             component.translate(displacement)
 
